@@ -455,6 +455,13 @@ pub fn parse_date_yymmdd(input: &str) -> Result<NaiveDate, ParseError> {
         });
     }
 
+    // Digits only: str::parse::<u32> would also take a leading '+'
+    if !input.bytes().all(|b| b.is_ascii_digit()) {
+        return Err(ParseError::InvalidFormat {
+            message: format!("Date must contain only digits, found '{}'", input),
+        });
+    }
+
     let year = input[0..2]
         .parse::<u32>()
         .map_err(|_| ParseError::InvalidFormat {
@@ -519,6 +526,13 @@ pub fn parse_time_hhmm(input: &str) -> Result<NaiveTime, ParseError> {
                 "Time must be in HHMM format (4 digits), found {} characters",
                 input.len()
             ),
+        });
+    }
+
+    // Digits only: str::parse::<u32> would also take a leading '+'
+    if !input.bytes().all(|b| b.is_ascii_digit()) {
+        return Err(ParseError::InvalidFormat {
+            message: format!("Time must contain only digits, found '{}'", input),
         });
     }
 
